@@ -2,7 +2,7 @@ import TomlVerif.Spec.OrdMap
 /-! # C16 — model of the containers of `toml_edit` and of `toml::Map`
 
 Transliteration of `toml_edit/src/{table,inline_table,array,array_of_tables,index}.rs` and
-`toml/src/map.rs` on small data: keys are `Nat` (0 = "a", 1 = "b", …), values small integers.
+`toml/src/map.rs` on small data: keys are `Nat` (0..3 = "a".."d", 4.. = "k00", "k01", …), values small integers.
 `IndexMap<Key, Item>` is an association list with the `indexmap` primitives the code calls
 (`get`, `entry`/occupied `get_mut`/vacant `insert`, `insert`, `shift_remove`, `retain`, `sort_by`,
 `sort_keys`); `Item::None` is `Slot.placeholder`.
@@ -322,7 +322,10 @@ def run (fx : Fix) (d : Dialect) : Items → List Op → List Ret × Items
 
 /-! ### printing -/
 
-def keyName (k : Nat) : String := String.singleton (Char.ofNat (97 + k))
+/-- key names: 0..3 are "a".."d", 4.. are "k00", "k01", … (string order = index order up to k99) -/
+def keyName (k : Nat) : String :=
+  if k < 4 then String.singleton (Char.ofNat (97 + k))
+  else "k" ++ String.singleton (Char.ofNat (48 + (k - 4) / 10 % 10)) ++ String.singleton (Char.ofNat (48 + (k - 4) % 10))
 
 def valText : Val → String
   | .int n => toString n
